@@ -298,6 +298,7 @@ func runC11(c *Ctx) {
 	c13UntrustedNames(c)
 	c11ArchiveLastWins(c)
 	c11RootsApplied(c)
+	c11ClosureAlwaysWalked(c)
 	c10c11TargetPaths(c)
 	c11BootstrapLenient(c)
 
